@@ -1,6 +1,6 @@
 (* C16 — obligations over the generated table, discharged by computation. *)
 From KV Require Import Glob.GlobalsTypes Glob.Conc Glob.GlobalsAllow Glob.GlobalsCheck.
-From KV Require Import Gen.Globals.
+From KV Require Import Gen.Globals Gen.DeepCopy.
 
 (* every access to a package-level mutable variable obeys the discipline of its variable, or is allow-listed
    with a reason that applies; no allow-list entry is stale *)
@@ -42,3 +42,8 @@ Lemma row_disciplined_read r :
 Proof.
   unfold row_disciplined. intros H [E|[E|E]]; rewrite E in H; apply Bool.andb_true_iff in H; tauto.
 Qed.
+
+(* every reference-typed field of the process-global default TransformerConfig is deep-copied by DeepCopy, and the
+   DeepCopy methods of the field types allocate and copy *)
+Lemma deepcopy_disciplined : deepcopy_ok gen_tc_fields gen_tc_copy_types = true.
+Proof. vm_compute. reflexivity. Qed.
